@@ -291,6 +291,38 @@ pub fn run_frontend(
                 Err(e) => stop(Err(e)).unwrap(),
             }
         }
+        // by-reference iterators: `extend_iter(&mut it)` again and again on the same iterator
+        "set_iter_resume" | "map_iter_resume" | "raw_iter_resume" => {
+            enum B3 {
+                S(fst::SetBuilder<Vec<u8>>),
+                M(fst::MapBuilder<Vec<u8>>),
+                R(raw::Builder<Vec<u8>>),
+            }
+            let mut b = match fe {
+                "set_iter_resume" => B3::S(fst::SetBuilder::new(vec![]).unwrap()),
+                "map_iter_resume" => B3::M(fst::MapBuilder::new(vec![]).unwrap()),
+                _ => B3::R(raw_builder(ty, geom)),
+            };
+            let mut it = kv.iter();
+            let mut results = vec![];
+            for _ in 0..kv.len() + 2 {
+                let r = match &mut b {
+                    B3::S(b) => b.extend_iter((&mut it).map(|(k, _)| k.clone())),
+                    B3::M(b) => b.extend_iter((&mut it).map(|(k, v)| (k.clone(), *v))),
+                    B3::R(b) => b.extend_iter((&mut it).map(|(k, v)| (k.clone(), Output::new(*v)))),
+                };
+                let done = r.is_ok();
+                results.push(show_res(&r));
+                if done {
+                    break;
+                }
+            }
+            match b {
+                B3::S(b) => fin(b.into_inner(), results),
+                B3::M(b) => fin(b.into_inner(), results),
+                B3::R(b) => fin(b.into_inner(), results),
+            }
+        }
         // stream a union of two sets / maps (split of the keys) into a builder
         "set_union_stream" => {
             let (a, b2): (Vec<_>, Vec<_>) =
@@ -647,17 +679,26 @@ impl Runner {
         let ty: u64 = t[2].parse().unwrap();
         let geom = parse_geom(t[3]);
         let stop = t[4] == "stop";
+        let resume = t[4] == "resume";
         let calls = parse_calls(t.get(5).copied().unwrap_or(""));
         let out = run_frontend(fe, ty, geom, &calls);
-        let (want_res, accepted, stopped, ambiguous) = contract(&calls, stop);
+        let (mut want_res, accepted, stopped, ambiguous) = contract(&calls, stop);
+        if resume {
+            // one result per `extend_iter` call: the error of each rejected item, then `ok`
+            want_res.retain(|x| x != "ok");
+            want_res.push("ok".into());
+        }
         let res_s = out.results.join(",");
         let want_s = want_res.join(",");
+        // a batch entry point that answers differently from the single-call one is also an
+        // API-path dependence (C15)
+        let tag = if stop { "C06 C15" } else { "C06" };
         self.check(res_s == want_s, || {
-            format!("C06 call results differ from the ordering contract: fe={} got {} want {}", fe, res_s, want_s)
+            format!("{} call results differ from the ordering contract: fe={} got {} want {}", tag, fe, res_s, want_s)
         });
         // C06/C15: rejected calls leave no trace — the bytes equal those of a builder that
         // only ever saw the accepted calls
-        if !stop && want_res.iter().any(|x| x != "ok") && !ambiguous {
+        if !stop && !resume && want_res.iter().any(|x| x != "ok") && !ambiguous {
             let accepted_calls: Vec<Call> = calls
                 .iter()
                 .zip(want_res.iter())
